@@ -20,8 +20,8 @@ CLAUSES = {
 FUNCTIONS = ["BaseTaskPool._task_wrapper", "BaseTaskPool._task_ending", "BaseTaskPool._start_task", "BaseTaskPool.flush"]
 
 SPAWN = ("apply2", "map2", "apply3", "start2")
-ALPHA = ("apply", "map", "rel", "fail", "cancel", "cgroup", "call", "flush", "cbrel", "nop")
-ALPHA_S = ("start", "stop", "rel", "fail", "cancel", "cgroup", "call", "flush", "cbrel", "nop")
+ALPHA = ("apply", "map", "rel", "fail", "cancel", "cgroup", "call", "flush", "cbrel", "lock", "unlock", "nop")
+ALPHA_S = ("start", "stop", "rel", "fail", "cancel", "cgroup", "call", "flush", "cbrel", "lock", "unlock", "nop")
 NOP = len(ALPHA) - 1
 
 
@@ -86,6 +86,7 @@ def _final(w, it, pool, size, cb, simple):
             if sum(1 for c in w.cb if c[0] == "end" and c[1] == i) != 1:
                 return 213
     before = len(w.W)
+    pool.unlock()
     if simple:
         pool.start(size + 1)
     else:
@@ -104,7 +105,8 @@ def families(tier):
     base = ["0 <= cb <= 3", "0 <= x1 <= 3", "0 <= x2 < %d" % NOP, "a2 >= -1", "t >= 0"]
     if not thorough:
         pre = base + ["0 <= size <= 2", "0 <= x3 < %d" % NOP, "a3 >= -1", "x4 == %d" % NOP, "a4 == 0"]
-        parts = parts_product(cb=(3,), x1=(0, 1, 3), x2=range(NOP), x3=(4, 7, 8))
+        parts = parts_product(cb=(3,), x1=(0, 1, 3), x2=range(NOP - 1), x3=(4, 7, 8))
+        parts += parts_product(cb=(3,), x1=(0, 1, 3), x2=(9,), x3=(2,))      # lock, then a task finishes
     else:
         pre = base + ["0 <= size <= 3", "0 <= x3 <= %d" % NOP, "a3 >= -1", "x4 == %d" % NOP, "a4 == 0"]
         parts = parts_product(cb=(1, 3), x1=range(4), x2=range(NOP))
